@@ -91,7 +91,7 @@ def crate(ci):
 
 
 def oblig(st, ci, kind, ok, detail):
-    st.oblig.append({"kind": kind, "fn": ci["fr"].body["path"], "ok": bool(ok), "detail": detail, "span": ci["term"]["span"]})
+    st.oblig.append({"kind": kind, "fn": ci["fr"].body["path"], "crate": ci["fr"].crate.name, "ok": bool(ok), "detail": detail, "span": ci["term"]["span"]})
 
 
 def count_of(st, nbytes, esz):
@@ -734,6 +734,43 @@ def _call_closure(ip, st, ci, clo, args):
     if body["arg_count"] == 2 and len(args) != 1:
         a = [self_arg, ("tuple", list(args))]
     return ip.inline(st, cr, body, a, ci["fr"].depth + 1)
+
+
+@prim("ops::Try::branch")
+def try_branch(ip, st, ci):
+    """the `?` operator, first half: Ok(v)/Some(v) -> Continue(v); Err(e)/None -> Break(residual)."""
+    v = ci["args"][0]
+    if v[0] != "enum":
+        raise Undecided("`?` on %s" % v[0])
+    CF = "core::ops::ControlFlow"
+    if v[3] in ("Ok", "Some"):
+        return venum(CF, 0, "Continue", [v[4][0]])
+    if v[3] == "Err":
+        return venum(CF, 1, "Break", [venum("core::result::Result", 1, "Err", [v[4][0]])])
+    if v[3] == "None":
+        return venum(CF, 1, "Break", [vnone()])
+    raise Undecided("`?` on variant %s" % v[3])
+
+
+@prim("ops::FromResidual::from_residual")
+def from_residual(ip, st, ci):
+    """the `?` operator, second half: the residual becomes the function's own Err / None.  The error
+    conversion `From::from` is the identity when both error types are the same type (checked)."""
+    v = ci["args"][0]
+    if v[0] != "enum":
+        raise Undecided("from_residual of %s" % v[0])
+    if v[3] == "None":
+        return vnone()
+    if v[3] == "Err":
+        cr = crate(ci)
+        dt = cr.types[dest_ty(ip, ci)]
+        src = cr.types[ip.place_ty(ci["fr"], ci["argops"][0]["place"])] if ci["argops"][0]["k"] in ("copy", "move") else None
+        de = [a["ty"] for a in dt.get("args", []) if "ty" in a]
+        se = [a["ty"] for a in (src or {}).get("args", []) if "ty" in a]
+        if len(de) == 2 and len(se) == 2 and cr.types[de[1]]["s"] == cr.types[se[1]]["s"]:
+            return venum("core::result::Result", 1, "Err", [v[4][0]])
+        raise Undecided("`?` converting the error type (%s -> %s)" % (cr.types[se[1]]["s"] if len(se) == 2 else "?", cr.types[de[1]]["s"] if len(de) == 2 else "?"))
+    raise Undecided("from_residual of variant %s" % v[3])
 
 
 @prim("Result::<T, E>::map_err")
